@@ -120,6 +120,25 @@ let rand_history ?(allow_fork = false) ?(io = true) ?(end_destroy = true) ?(bad_
   let w = world_with ~fds:user_fds ~files:user_files ~extra_fs:[ (s "/tmp/f", FFile) ] scripts in
   { sc_world = w; sc_ops = List.rev !ops }
 
+(* one scenario per (call index inside a selected op, errno): the fault arrives after the call
+   has been blocked [lat] ms (an EINTR in the middle of a poll / read / waitpid) *)
+let faults_in_ops ?(lat = 30) ?(errnos = [ 4 ]) ?(max_per = 40) (pred : op -> bool) (sc : scenario) : scenario list =
+  let m = run_model sc in
+  let all_steps = m.r_steps @ (match m.r_pending with
+      | Some o -> [ { s_op = o; s_res = RSkip; s_before = (match List.rev m.r_steps with st :: _ -> st.s_after | [] -> sc.sc_world); s_after = m.r_last } ]
+      | None -> []) in
+  List.concat_map (fun st ->
+      if pred st.s_op then begin
+        let a = int_of_z st.s_before.w_calls and b = int_of_z st.s_after.w_calls in
+        List.concat_map (fun k ->
+            List.map (fun e ->
+                { sc with sc_world = { sc.sc_world with w_faults = [ (z k, pos_of_int e) ]; w_lat = [ (z k, z lat) ] } }) errnos)
+          (List.filteri (fun j _ -> j < max_per) (List.init (max 0 (b - a)) (fun j -> a + j)))
+      end else []) all_steps
+let is_wait_like = function OS (SWait _) | OS (SStop _) | OS (SDestroy _) | OS (SPoll _) -> true | _ -> false
+let is_io = function OS (SRead _) | OS (SWrite _) | OS (SDrain _) | OS (SPoll _) -> true | _ -> false
+
+
 (* ---- C01 ---- *)
 let term_signals = [ 1; 2; 3; 4; 6; 8; 9; 10; 11; 12; 13; 14; 15 ]
 let fam_c01 tier r =
@@ -136,7 +155,10 @@ let fam_c01 tier r =
   let grid = List.concat_map templates endings in
   let n = if tier = "quick" then 600 else 20000 in
   let rnd = List.init n (fun k -> rand_history ~io:(k mod 3 = 0) (split r k)) in
+  let flt = List.concat_map (faults_in_ops ~errnos:[ 4; 12 ] is_wait_like)
+      (List.concat_map templates [ b_exit ~delay:40 7; b_raise ~delay:20 11; b_term_handler 30 (Some 9); b_sleep_forever ]) in
   [ { name = "C01/endings-x-templates"; exhaustive = true; scs = grid };
+    { name = "C01/interrupted-calls-in-wait-stop-destroy"; exhaustive = true; scs = flt };
     { name = "C01/random-histories"; exhaustive = false; scs = rnd } ]
 
 (* ---- fault enumeration (C04, C05, C06, C12) ---- *)
@@ -151,6 +173,7 @@ let start_scenarios () : (string * options * z list list option * (world -> worl
     ("paths", { o with o_in = rd ~p:"/tmp/f" 7; o_out = rd ~p:"/tmp/g" 7; o_err = rd ~p:"/tmp/h" 0 }, c 0, id);
     ("handle-file", { o with o_in = rd ~h:5 5; o_out = rd ~f:4 6 }, c 0, id);
     ("input", { o with o_input_data = true; o_input_size = z 10 }, c 0, id);
+    ("input-too-big", { o with o_input_data = true; o_input_size = z 100000 }, c 0, id);
     ("env-wd", { o with o_env_behavior = z 1; o_env_extra = Some [ s "PATH=/bin"; s "X=1" ]; o_wd = Some (s "/w/child") }, c 0, id);
     ("rel-prog-wd", { o with o_wd = Some (s "/w/child") }, argv [ "../bin/c0" ], id);
     ("deadline-stop-nb", { o with o_deadline = z 50; o_nonblocking = true; o_stop = stop3 (sa 2 10) (sa 3 10) (sa 0 0) }, c 0, id);
@@ -172,7 +195,7 @@ let fault_family ?(variant = fun (_ : int) -> ([], [])) tier (post : op list) : 
       let mk faults =
         incr counter;
         let (mask, disp) = variant !counter in
-        let w = f (world_with ~fds:user_fds ~files:user_files ~rlimit:14 ~faults ~mask ~disp
+        let w = f (world_with ~fds:user_fds ~files:user_files ~rlimit:16 ~faults ~mask ~disp
                      ~extra_fs:[ (s "/tmp/f", FFile); (s "/w/bin", FDir); (s "/w/bin/c0", FExec script) ] [ script ]) in
         { sc_world = w;
           sc_ops = [ new_ (); start ~opts ~script:(if opts.o_fork then script else []) av; pid () ] @ post } in
@@ -186,9 +209,9 @@ let fault_pairs r n post : scenario list =
   let scs = Array.of_list (start_scenarios ()) in
   List.init n (fun k ->
       let r = split r k in
-      let (_, opts, av, f) = scs.(rint r 11) in
+      let (_, opts, av, f) = scs.(rint r 12) in
       let script = [ a_sleep 20; a_exit 3 ] in
-      let mk faults = f (world_with ~fds:user_fds ~files:user_files ~rlimit:14 ~faults
+      let mk faults = f (world_with ~fds:user_fds ~files:user_files ~rlimit:16 ~faults
                            ~extra_fs:[ (s "/tmp/f", FFile); (s "/w/bin", FDir); (s "/w/bin/c0", FExec script) ] [ script ]) in
       let base = { sc_world = mk []; sc_ops = [ new_ (); start ~opts av ] } in
       let ncalls = int_of_z (run_model base).r_last.w_calls in
@@ -272,7 +295,10 @@ let fam_c07 tier r =
       { sc_world = world_with ~lat [ script ];
         sc_ops = [ new_ (); start ~opts:{ default_options with o_deadline = z dl } (c 0); sleep (pick r [ 0; 5; 80; 450 ]);
                    stop (stop3 (sa (a ()) (t ())) (sa (a ()) (t ())) (sa (a ()) (t ()))); wait 0; kill (); wait 1000; destroy () ] }) in
+  let flt = List.concat_map (faults_in_ops ~lat:35 ~errnos:[ 4 ] (function OS (SStop _) -> true | _ -> false))
+      (List.filteri (fun j _ -> j mod 11 = 0) grid) in
   [ { name = "C07/triples-x-behaviours"; exhaustive = true; scs = grid };
+    { name = "C07/interrupted-calls-in-stop"; exhaustive = true; scs = flt };
     { name = "C07/random"; exhaustive = false; scs = rnd } ]
 
 let fam_c15 tier r =
@@ -332,7 +358,10 @@ let fam_c08 tier r =
         sc_ops = [ new_ (); start ~opts:{ default_options with o_fork = true; o_deadline = z 50; o_stop = stop3 (sa 3 (-1)) (sa 0 0) (sa 0 0) }
                      ~script:[ a_sleep 300; a_exit 4 ] None; wait t; wait (-2); destroy () ] }) [ 0; 30; -2 ] in
   ignore r;
+  let flt = List.concat_map (faults_in_ops ~lat:20 ~errnos:[ 4 ] (function OS (SWait _) | OS (SPoll _) -> true | _ -> false))
+      (List.filteri (fun j _ -> j mod 9 = 0) waits @ List.filteri (fun j _ -> j mod 41 = 0) grid) in
   [ { name = "C08/source-layouts-x-timeouts-x-activity"; exhaustive = true; scs = grid };
+    { name = "C08/interrupted-waits-and-polls"; exhaustive = true; scs = flt };
     { name = "C08/waits"; exhaustive = true; scs = waits };
     { name = "C08/fork-mode"; exhaustive = true; scs = forkmode } ]
 
@@ -519,7 +548,10 @@ let fam_c02 tier r =
         [ ("eager", [ a_readall 0; a_readall 0; a_readall 0; a_exit 0 ]); ("slow", [ a_read 0 100; a_sleep 10; a_readall 0; a_readall 0; a_exit 0 ]) ])
       sizes in
   let n = if tier = "quick" then 300 else 15000 in
+  let pickn k l = List.filteri (fun j _ -> j mod k = 0) l in
+  let flt = List.concat_map (faults_in_ops ~errnos:[ 4; 5 ] ~max_per:6 is_io) (pickn 23 grid @ pickn 9 win) in
   [ { name = "C02/out-sizes-x-buffers-x-modes-x-layouts"; exhaustive = true; scs = grid };
+    { name = "C02/interrupted-reads-writes"; exhaustive = true; scs = flt };
     { name = "C02/stdin-writes"; exhaustive = true; scs = win };
     { name = "C02/start-up-input"; exhaustive = true; scs = input };
     { name = "C02/random-histories"; exhaustive = false; scs = List.init n (fun k -> rand_history (split r k)) } ]
